@@ -394,7 +394,10 @@ pub fn step_uniform<const M: usize>(s: &mut Sim<M>, rep: &mut Report, a: usize) 
             let f = s.rng.chance(1, 2);
             let ok = s.rng.chance(1, 4);
             rep.bump("op.u.try_with");
-            if a == 8 {
+            if a == 8 && !ok && s.rng.chance(1, 3) {
+                // a failing initialiser whose success type is zero-sized while the Result slot is not
+                s.op_try_with(rep, 10, f, false, 0, false);
+            } else if a == 8 {
                 s.op_try_with(rep, 3, f, ok, 0, false);
             } else if a == 16 {
                 s.op_try_with(rep, 4, f, ok, 0, false);
